@@ -148,6 +148,34 @@ def r1(ctx):
     ctx.require(ok, 'C05.R1', init, b[0].stmt if b else init.node,
                 'the step requirement must be fixed before the planes are '
                 'generated', key=init.full + ' | order req_dz -> zpts')
+    # every method that contributes a requirement (stores / appends to
+    # min_dz) is called before the requirements are reduced to req_dz
+    rc = repo.cls('reactor', 'Reactor')
+    writers = []
+    for nm, m in rc.methods.items():
+        if nm in ('__init__', '_setup_overall_axial_mesh_req'):
+            continue
+        wr = any(isinstance(c_, ast.Call) and isinstance(
+            c_.func, ast.Attribute) and c_.func.attr in ('append', 'extend',
+                                                         'insert')
+                 and "self.min_dz['dz']" in src(c_.func.value)
+                 for c_ in walk_no_nested(m.node)) or any(
+                     "self.min_dz" in src(t_) for t_, _s in U.stores(m.node))
+        if wr:
+            writers.append(nm)
+    if len(writers) < 2:
+        raise AnalysisError('writers of Reactor.min_dz: %s' % writers)
+    for nm in sorted(writers):
+        w_ = gi.find(lambda n, nm=nm: isinstance(n, ast.Call) and
+                     call_name(n) == 'self.' + nm)
+        ok = len(w_) >= 1 and len(a) == 1 and all(
+            gi.dominates(x, a[0]) for x in w_)
+        ctx.require(ok, 'C05.R1', init, a[0].stmt if a else init.node,
+                    'self.%s() contributes a step requirement (min_dz) and '
+                    'must run before the requirements are reduced to req_dz '
+                    'in _setup_overall_axial_mesh_req: a requirement added '
+                    'later (e.g. the gap\'s) is ignored by the mesh' % nm,
+                    key='%s | %s before reduction' % (init.full, nm))
     # all call sites of _setup_zpts
     sites = [(f, c) for f in repo.all_funcs()
              for c in U.attr_calls(f.node, '_setup_zpts')]
